@@ -74,6 +74,13 @@ PROPS = {
         streams=[("rlimit", 900, 16000), ("rfuzz", 400, 8000)],
         assumptions=[ASSUME_BUFIO],
     ),
+    "C07": P(
+        technique="Lean 4 theorems over total, input-bounded models + translator inventory of index/slice/make sites + differential fuzz correspondence",
+        level_text="Proof for the modelled code: the only panic the read path can produce is the documented one at the 1000th call on a failed connection; header reads and frame skips are bounded by what is asked for / present and end with an error on a short stream (no waiting for a claimed length); the models of the reader loops and of the header parsers are total functions whose recursion is bounded by the input length (accepted by Lean's termination checker). Go-level panics cannot arise in the model: they are covered by the regenerated inventory of every index / slice / make / type-assertion site in the functions fed by network input (a new or changed site breaks the tie) and by fuzz correspondence: mutated and random frame streams into connections of both roles with the model predicting every outcome exactly, random and mutated replies to Dial and to CONNECT, junk header values through the exported helpers, all under recover(), a watchdog and a TotalAlloc bound.",
+        level_note="Partial: robustness of net/http, net/url, bufio, compress/flate and encoding/base64 internals is assumed; allocation is bounded by measurement in the fuzz streams plus the make-site inventory, not by a theorem about the Go allocator. Fuzzing supports the tie and the search for failing inputs; it is not the proof.",
+        lean=["WS.Props.C07"],
+        streams=[("rfuzz", 1200, 30000), ("dfuzz", 150, 3000), ("unit", 400, 8000), ("srv", 300, 6000)],
+    ),
     "C08": P(
         technique="Lean 4 theorems over the reader+writer model + differential correspondence",
         level_text="Proof: while a conformant message is read to its end the handler log grows by exactly the interleaved pings/pongs, in wire order, with exact payloads (any fragmentation, chunking, read sizes); a ping of 0..125 bytes is answered by one pong with the identical payload; a close with an accepted code and UTF-8 reason is handed to the handler once, echoed with the same code, and reported as CloseError{code, reason}; a handler error is permanent. Tie: controls at every position of 1-5-fragment messages, payload lengths {0,1,2,7,50,124,125}, all accepted close-code classes, default / recording / failing handlers, both roles; handler log and reply frames compared exactly; oracle: handler log = control frames in wire order, pongs = pings.",
